@@ -70,3 +70,41 @@ pub fn wire_decode(bytes: &[u8]) -> Result<VerifDecodedMessage, (DecodeError, Op
 		},
 	})
 }
+
+/// The library's block-count constants that govern HTLC deadlines, for harnesses that centre their
+/// sweeps on them (several are crate-private).
+#[derive(Clone, Copy, Debug, PartialEq, Eq)]
+pub struct VerifTimingConstants {
+	/// `chain::channelmonitor::CLTV_CLAIM_BUFFER`
+	pub cltv_claim_buffer: u32,
+	/// `chain::channelmonitor::LATENCY_GRACE_PERIOD_BLOCKS`
+	pub latency_grace_period_blocks: u32,
+	/// `chain::channelmonitor::MAX_BLOCKS_FOR_CONF`
+	pub max_blocks_for_conf: u32,
+	/// `chain::channelmonitor::HTLC_FAIL_BACK_BUFFER`
+	pub htlc_fail_back_buffer: u32,
+	/// `chain::channelmonitor::ANTI_REORG_DELAY`
+	pub anti_reorg_delay: u32,
+	/// `ln::channelmanager::CLTV_FAR_FAR_AWAY`
+	pub cltv_far_far_away: u32,
+	/// `ln::channelmanager::MIN_CLTV_EXPIRY_DELTA`
+	pub min_cltv_expiry_delta: u16,
+	/// `ln::channelmanager::MIN_FINAL_CLTV_EXPIRY_DELTA`
+	pub min_final_cltv_expiry_delta: u16,
+}
+
+/// Returns the library's HTLC deadline constants.
+pub fn timing_constants() -> VerifTimingConstants {
+	use crate::chain::channelmonitor as cm;
+	use crate::ln::channelmanager as mgr;
+	VerifTimingConstants {
+		cltv_claim_buffer: cm::CLTV_CLAIM_BUFFER,
+		latency_grace_period_blocks: cm::LATENCY_GRACE_PERIOD_BLOCKS,
+		max_blocks_for_conf: cm::MAX_BLOCKS_FOR_CONF,
+		htlc_fail_back_buffer: cm::HTLC_FAIL_BACK_BUFFER,
+		anti_reorg_delay: cm::ANTI_REORG_DELAY,
+		cltv_far_far_away: mgr::CLTV_FAR_FAR_AWAY,
+		min_cltv_expiry_delta: mgr::MIN_CLTV_EXPIRY_DELTA,
+		min_final_cltv_expiry_delta: mgr::MIN_FINAL_CLTV_EXPIRY_DELTA,
+	}
+}
